@@ -200,6 +200,37 @@ def _peak_with_limit(resp, limit=np.inf):
     return m
 
 
+def _in_child(fn, timeout):
+    """run fn() in a forked child; -> its (small, picklable) result, or ("timeout", "")"""
+    import multiprocessing as mp
+    import os
+    ctx = mp.get_context("fork")
+    rd, wr = ctx.Pipe(duplex=False)
+
+    def target():
+        try:
+            out = fn()
+        except BaseException as ex:      # noqa: BLE001
+            out = ("raised", type(ex).__name__)
+        try:
+            wr.send(out)
+            wr.close()
+        finally:
+            os._exit(0)
+
+    p = ctx.Process(target=target)
+    p.start()
+    wr.close()
+    try:
+        res = rd.recv() if rd.poll(timeout) else ("timeout", "")
+    except EOFError:
+        res = ("timeout", "")
+    if p.is_alive():
+        p.kill()
+    p.join()
+    return res
+
+
 def oracle_srs_error(case, R):
     """an error in one per-frequency task reaches the caller in both modes: what the serial run refuses, the
     parallel run does not hand out as a result"""
@@ -215,8 +246,7 @@ def oracle_srs_error(case, R):
     if per_f.max() <= per_f.min() * (1 + 1e-9):
         R.label("skipped:all_frequencies_alike")
         return
-    limit = float(np.sort(per_f)[len(per_f) // 2 - (len(per_f) % 2 == 0)]) * (1 + 1e-9) if len(per_f) > 1 else 0.0
-    limit = max(limit, per_f.min() * (1 + 1e-9))
+    limit = 0.5 * (float(per_f.min()) + float(per_f.max()))        # some frequencies beyond it, some not
     pk = functools.partial(_peak_with_limit, limit=limit)
     nbad = int((per_f > limit).sum())
     R.label(f"stype={case['stype']}", f"ic={case['ic']}", f"getresp={case['getresp']}")
@@ -229,7 +259,12 @@ def oracle_srs_error(case, R):
             return ("raised", type(ex).__name__)
 
     a = run(parallel="no")
-    b = run(parallel="yes", maxcpu=case["maxcpu"])
+    # (multiprocessing.Pool can dead-lock while it is torn down after a task has raised - a stdlib hazard that has
+    # nothing to do with the property: the parallel call runs in a child with a time limit, no answer = inconclusive)
+    b = _in_child(lambda: (run(parallel="yes", maxcpu=case["maxcpu"])[0], ""), 30.0)
+    if b[0] == "timeout":
+        R.label("inconclusive:pool_teardown_hang")
+        return
     R.check(a[0] == "raised", "harness_serial_run_did_not_raise", f"{nbad} of {len(freq)} frequencies beyond the limit")
     R.check(b[0] == a[0], "srs_parallel_swallows_worker_error",
             f"serial: {a[0]} ({a[1] if a[0] == 'raised' else 'result'}), parallel: {b[0]}; {nbad} of {len(freq)} "
